@@ -532,18 +532,20 @@ receiver has a context for the SSRC, so a stream needs room only for its first p
 theorem session_roundtrip_rtp (S : Suite) (s r : Sess) (now now' : Nat) (p : Pkt) (wf : p.WF)
     (hl : Linked S s r)
     (hroom : (lookup r.rx p.hdr.ssrc).isSome = true ∨ r.rx.length < maxRxContexts)
+    (htxroom : (lookup s.tx p.hdr.ssrc).isSome = true ∨ s.tx.length < maxTxContexts)
     (hsync0 : rocOf s.tx p.hdr.ssrc = rocOf r.rx p.hdr.ssrc) :
     ∃ wire, (s.protectRtp S now p).1 = .ok wire ∧
       (∃ body, parseHdr wire = .ok (p.hdr, decide (p.padLen ≠ 0), body)) ∧
       (r.receiveRtp S now' wire).1 = .ok p ∧
       Linked S (s.protectRtp S now p).2 (r.receiveRtp S now' wire).2 ∧
       rocOf (s.protectRtp S now p).2.tx p.hdr.ssrc = rocOf (r.receiveRtp S now' wire).2.rx p.hdr.ssrc ∧
-      (lookup (r.receiveRtp S now' wire).2.rx p.hdr.ssrc).isSome = true := by
+      (lookup (r.receiveRtp S now' wire).2.rx p.hdr.ssrc).isSome = true ∧
+      (lookup (s.protectRtp S now p).2.tx p.hdr.ssrc).isSome = true := by
   have hsync : rocOf (evict s.tx p.hdr.ssrc now) p.hdr.ssrc = rocOf r.rx p.hdr.ssrc := by
     rw [← hsync0]; simp only [rocOf, lookup_evict_keep]
   -- the context the sender works on
-  obtain ⟨cs, hcsK, hcsS, hcsR, hres, hroc⟩ := withTx_result S s now p.hdr.ssrc (fun c => c.protectRtp S p)
-    hl.txInv hl.keyLen hl.saltLen (fun c => protectRtp_ssrc S c p)
+  obtain ⟨cs, hcsK, hcsS, hcsR, hres, hroc, htxsome⟩ := withTx_result S s now p.hdr.ssrc (fun c => c.protectRtp S p)
+    hl.txInv hl.keyLen hl.saltLen htxroom (fun c => protectRtp_ssrc S c p)
   have hprot := protectRtp_eq S cs p (validHdr_of_WF _ wf.hdr)
   change (s.protectRtp S now p).1 = (cs.protectRtp S p).1 at hres
   change rocOf (s.protectRtp S now p).2.tx p.hdr.ssrc = ((cs.protectRtp S p).2.roc, (cs.protectRtp S p).2.last) at hroc
@@ -565,7 +567,7 @@ theorem session_roundtrip_rtp (S : Suite) (s r : Sess) (now now' : Nat) (p : Pkt
   obtain ⟨hok, hroc2, hsome⟩ := hacc p (by show (cr.unprotectRtp S _ _ _).1 = _; rw [hun])
   have hu : (r.unprotectRtp S now' p.hdr (p.padLen ≠ 0) (rtpWireBody S cs p (cs.estimate p.hdr.seq))).1 = .ok p := hok
   obtain ⟨hrecv, hrecvs⟩ := receiveRtp_ok S r now' _ p.hdr (p.padLen ≠ 0) _ p (parseHdr_writeHdr _ _ _ wf.hdr) hu
-  refine ⟨_, hres, ⟨_, parseHdr_writeHdr _ _ _ wf.hdr⟩, hrecv, ?_, ?_, by rw [hrecvs]; exact hsome⟩
+  refine ⟨_, hres, ⟨_, parseHdr_writeHdr _ _ _ wf.hdr⟩, hrecv, ?_, ?_, by rw [hrecvs]; exact hsome, htxsome⟩
   · -- both sessions keep their keys and table invariants
     have t := protectRtp_kept S s now p hl.txInv
     have q := unprotectRtp_kept S r now' p.hdr (p.padLen ≠ 0) (rtpWireBody S cs p (cs.estimate p.hdr.seq)) hl.rxInv
@@ -596,6 +598,7 @@ receiver needs room for a new context only if the stream is new to it) —
 whatever the sequence numbers do (the two ends run the same estimate from the same state) -/
 theorem session_stream_roundtrip (S : Suite) (k now : Nat) (ps : List Pkt) (s r : Sess) (hl : Linked S s r)
     (hroom : (lookup r.rx k).isSome = true ∨ r.rx.length < maxRxContexts)
+    (htxroom : (lookup s.tx k).isSome = true ∨ s.tx.length < maxTxContexts)
     (hps : ∀ p ∈ ps, p.WF ∧ p.hdr.ssrc = k) (hsync : rocOf s.tx k = rocOf r.rx k) :
     streamThrough S s r now ps = ps.map .ok := by
   induction ps generalizing s r with
@@ -603,9 +606,9 @@ theorem session_stream_roundtrip (S : Suite) (k now : Nat) (ps : List Pkt) (s r 
   | cons p ps ih =>
     obtain ⟨wf, hk⟩ := hps p (by simp)
     subst hk
-    obtain ⟨wire, h1, _, h2, h3, h4, h5⟩ := session_roundtrip_rtp S s r now now p wf hl hroom hsync
+    obtain ⟨wire, h1, _, h2, h3, h4, h5, h6⟩ := session_roundtrip_rtp S s r now now p wf hl hroom htxroom hsync
     simp only [streamThrough, h1, h2, List.map_cons]
-    rw [ih _ _ h3 (Or.inl h5) (fun q hq => hps q (by simp [hq])) h4]
+    rw [ih _ _ h3 (Or.inl h5) (Or.inl h6) (fun q hq => hps q (by simp [hq])) h4]
 
 example (S : Suite) (mk ms : Bytes) (h1 : srtpKeyLen ≤ mk.length) (h2 : Profile.gcm.saltLen ≤ ms.length) :
     Linked S (Sess.new .gcm mk ms mk ms) (Sess.new .gcm mk ms mk ms) :=
@@ -720,30 +723,63 @@ namespace Witness
 def fullTable : List Ctx :=
   (List.range 1024).map (fun k => ⟨1000 + k, .cm80, (deriveKeys toySuite .cm80 key16 salt14).1,
     (deriveKeys toySuite .cm80 key16 salt14).2, 0, none, 0, 0⟩)
-def sFull : Sess := { s0 with tx := fullTable, rx := fullTable }
+/-- a receiver whose receive table is full / a sender whose transmit table is full -/
+def sRxFull : Sess := { s0 with rx := fullTable }
+def sTxFull : Sess := { s0 with tx := fullTable }
 private theorem fullTable_inv : TableInv toySuite .cm80 key16 salt14 fullTable := by
   intro c hc
   obtain ⟨k, _, rfl⟩ := List.mem_map.mp hc
   exact ⟨rfl, rfl, rfl⟩
+private theorem fullTable_fresh (k : Nat) : rocOf fullTable k = (0, none) := by
+  unfold rocOf
+  cases h : lookup fullTable k with
+  | none => rfl
+  | some c =>
+    obtain ⟨j, _, rfl⟩ := List.mem_map.mp (lookup_mem h)
+    rfl
+private theorem emptyInv : TableInv toySuite .cm80 key16 salt14 [] := fun _ h => by simp at h
 end Witness
 
 open Witness in
 set_option maxRecDepth 1000000 in
-/-- **rx_cap_witness** (KNOWN FINDING `roundtrip:rtp-genuine-rejected:<profile>:rx-cap`, `…rtcp…:rx-cap`):
-the second reason why "any number of SSRCs" is false on the current code. Since the `fix:` commit
-that bounds the receive table for C07 (`MAX_RX_CONTEXTS`), a receiver holding 1024 live contexts
-refuses the first packet of the 1025th stream although both sessions are `Linked`, agree on every
-rollover state and the packet is well-formed. Deliberate (memory bound against a keyed peer that
-uses a fresh SSRC per packet); recorded, not hidden in the statement. -/
+/-- **rx_cap_witness** (KNOWN FINDING `roundtrip:{rtp,rtcp}-genuine-rejected:<profile>:rx-cap`): the second
+reason why "any number of SSRCs" is false on the current code. A receiver holding `MAX_RX_CONTEXTS` live
+contexts refuses the first packet of the 1025th stream although the sessions are `Linked`, agree on every
+rollover state, the packet is well-formed and the sender protected it. Deliberate memory bound (C07). -/
 theorem rx_cap_witness :
-    Linked toySuite sFull sFull ∧ (∀ k, rocOf sFull.tx k = rocOf sFull.rx k) ∧ (pkt 5000 1).WF ∧
-    allDelivered toySuite sFull sFull [(0, true, pkt 5000 1)] = false ∧ ¬ ManySsrcRoundtrip toySuite := by
-  have hl : Linked toySuite sFull sFull :=
-    ⟨rfl, rfl, rfl, by decide, by decide, fullTable_inv, fullTable_inv⟩
+    Linked toySuite s0 sRxFull ∧ (∀ k, rocOf s0.tx k = rocOf sRxFull.rx k) ∧ (pkt 5000 1).WF ∧
+    (∃ w, (s0.protectRtp toySuite 0 (pkt 5000 1)).1 = .ok w) ∧
+    allDelivered toySuite s0 sRxFull [(0, true, pkt 5000 1)] = false ∧ ¬ ManySsrcRoundtrip toySuite := by
+  have hl : Linked toySuite s0 sRxFull := ⟨rfl, rfl, rfl, by decide, by decide, emptyInv, fullTable_inv⟩
   have hw : (pkt 5000 1).WF := pkt_WF _ _ (by decide) (by decide)
-  have hf : allDelivered toySuite sFull sFull [(0, true, pkt 5000 1)] = false := by decide
-  refine ⟨hl, fun _ => rfl, hw, hf, fun h => ?_⟩
-  have := h sFull sFull [(0, true, pkt 5000 1)] hl (fun _ => rfl) (fun x hx => by
+  have hs : ∀ k, rocOf s0.tx k = rocOf sRxFull.rx k := fun k => (fullTable_fresh k).symm
+  have hf : allDelivered toySuite s0 sRxFull [(0, true, pkt 5000 1)] = false := by decide
+  have hp : (s0.protectRtp toySuite 0 (pkt 5000 1)).1.toBool = true := by decide
+  refine ⟨hl, hs, hw, ?_, hf, fun h => ?_⟩
+  · cases hr : (s0.protectRtp toySuite 0 (pkt 5000 1)).1 with
+    | ok w => exact ⟨w, rfl⟩
+    | error e => rw [hr] at hp; simp [Except.toBool] at hp
+  · have := h s0 sRxFull [(0, true, pkt 5000 1)] hl hs (fun x hx => by
+      simp only [List.mem_singleton] at hx; subst hx; exact hw) (by decide)
+    rw [hf] at this
+    exact absurd this (by decide)
+
+open Witness in
+set_option maxRecDepth 1000000 in
+/-- **tx_cap_witness** (KNOWN FINDING `roundtrip:protect-{rtp,rtcp}-failed:<profile>:tx-cap`): the third reason.
+Since the `fix:` commit that bounds the TRANSMIT table (`MAX_TX_CONTEXTS`, C07: a relay forwarding arbitrary
+SSRCs), a sender holding 1024 live transmit contexts refuses to protect the first packet of a 1025th
+outgoing stream (`Internal`), so that stream's genuine packets never reach the peer. Deliberate. -/
+theorem tx_cap_witness :
+    Linked toySuite sTxFull s0 ∧ (∀ k, rocOf sTxFull.tx k = rocOf s0.rx k) ∧ (pkt 5000 1).WF ∧
+    (sTxFull.protectRtp toySuite 0 (pkt 5000 1)).1.toBool = false ∧
+    allDelivered toySuite sTxFull s0 [(0, true, pkt 5000 1)] = false ∧ ¬ ManySsrcRoundtrip toySuite := by
+  have hl : Linked toySuite sTxFull s0 := ⟨rfl, rfl, rfl, by decide, by decide, fullTable_inv, emptyInv⟩
+  have hw : (pkt 5000 1).WF := pkt_WF _ _ (by decide) (by decide)
+  have hs : ∀ k, rocOf sTxFull.tx k = rocOf s0.rx k := fun k => fullTable_fresh k
+  have hf : allDelivered toySuite sTxFull s0 [(0, true, pkt 5000 1)] = false := by decide
+  refine ⟨hl, hs, hw, by decide, hf, fun h => ?_⟩
+  have := h sTxFull s0 [(0, true, pkt 5000 1)] hl hs (fun x hx => by
     simp only [List.mem_singleton] at hx; subst hx; exact hw) (by decide)
   rw [hf] at this
   exact absurd this (by decide)
@@ -761,6 +797,24 @@ def RoomAlong (S : Suite) : Sess → Sess → List (Nat × Bool × Pkt) → Prop
         ((lookup r.rx p.hdr.ssrc).isSome = true ∨ r.rx.length < maxRxContexts) ∧
           RoomAlong S (s.protectRtp S now p).2 (r.receiveRtp S now wire).2 rest
       else RoomAlong S (s.protectRtp S now p).2 r rest
+
+/-- the same on the sending side (`MAX_TX_CONTEXTS`): whenever a packet's SSRC has no transmit context
+yet, fewer than the cap exist -/
+def TxRoomAlong (S : Suite) : Sess → List (Nat × Bool × Pkt) → Prop
+  | _, [] => True
+  | s, (now, _, p) :: rest =>
+    ((lookup s.tx p.hdr.ssrc).isSome = true ∨ s.tx.length < maxTxContexts) ∧
+      TxRoomAlong S (s.protectRtp S now p).2 rest
+
+theorem txroom_of_count (S : Suite) (sched : List (Nat × Bool × Pkt)) (s : Sess)
+    (h : s.tx.length + sched.length ≤ maxTxContexts) : TxRoomAlong S s sched := by
+  induction sched generalizing s with
+  | nil => trivial
+  | cons x rest ih =>
+    obtain ⟨now, deliver, p⟩ := x
+    simp only [List.length_cons] at h
+    have := withTx_length S s now p.hdr.ssrc (fun c => c.protectRtp S p)
+    exact ⟨Or.inr (by omega), ih _ (by show (s.withTx S now p.hdr.ssrc _).2.tx.length + _ ≤ _; omega)⟩
 
 /-- sufficient for `RoomAlong`: the table plus one context per scheduled packet stays within the cap -/
 theorem room_of_count (S : Suite) (sched : List (Nat × Bool × Pkt)) (s r : Sess)
@@ -790,7 +844,7 @@ a lost packet); per stream it is `reorder_loss_roundtrip` (context level) and
 `session_reorder_loss_roundtrip` (session level, one stream). -/
 theorem many_ssrc_roundtrip_partial (S : Suite) (T : Nat) (sched : List (Nat × Bool × Pkt)) (s r : Sess)
     (hl : Linked S s r) (hsync : ∀ k, rocOf s.tx k = rocOf r.rx k)
-    (hroom : RoomAlong S s r sched)
+    (hroom : RoomAlong S s r sched) (htxroom : TxRoomAlong S s sched)
     (hwf : ∀ x ∈ sched, x.2.2.WF) (hdel : ∀ x ∈ sched, x.2.1 = true)
     (ht : ∀ x ∈ sched, T ≤ x.1 ∧ x.1 < T + ssrcInactivityEvictSecs)
     (hus : UsedSince T s.tx) (hur : UsedSince T r.rx) :
@@ -805,15 +859,16 @@ theorem many_ssrc_roundtrip_partial (S : Suite) (T : Nat) (sched : List (Nat × 
     simp only at hT hn
     have wf : p.WF := hwf _ (List.mem_cons_self ..)
     -- room for this packet, read off `RoomAlong` once the protect result is known
+    obtain ⟨htx1, htxrest⟩ := htxroom
     have hprot : ∃ w, (s.protectRtp S now p).1 = .ok w := by
       obtain ⟨cs, _, _, _, hres, _⟩ := withTx_result S s now p.hdr.ssrc (fun c => c.protectRtp S p)
-        hl.txInv hl.keyLen hl.saltLen (fun c => protectRtp_ssrc S c p)
+        hl.txInv hl.keyLen hl.saltLen htx1 (fun c => protectRtp_ssrc S c p)
       have := protectRtp_eq S cs p (validHdr_of_WF _ wf.hdr)
       exact ⟨_, by show (s.withTx S now p.hdr.ssrc _).1 = _; rw [hres, this]⟩
     obtain ⟨w0, hw0⟩ := hprot
     simp only [RoomAlong, hw0, if_true] at hroom
     obtain ⟨hroom1, hroomrest⟩ := hroom
-    obtain ⟨wire, h1, ⟨body, hparse⟩, h2, h3, h4, _⟩ := session_roundtrip_rtp S s r now now p wf hl hroom1 (hsync p.hdr.ssrc)
+    obtain ⟨wire, h1, ⟨body, hparse⟩, h2, h3, h4, _, _⟩ := session_roundtrip_rtp S s r now now p wf hl hroom1 htx1 (hsync p.hdr.ssrc)
     have hwe : wire = w0 := by rw [hw0] at h1; simpa using h1.symm
     subst hwe
     have ftx := withTx_frame S s T now p.hdr.ssrc (fun c => c.protectRtp S p) hus hT hn
@@ -827,7 +882,7 @@ theorem many_ssrc_roundtrip_partial (S : Suite) (T : Nat) (sched : List (Nat × 
     have f2 : ∀ k, k ≠ p.hdr.ssrc → rocOf (r.receiveRtp S now wire).2.rx k = rocOf r.rx k := by
       rw [hrs]; exact frx.2
     simp only [allDelivered, h1, h2, if_true, beq_self_eq_true, Bool.true_and]
-    refine ih _ _ h3 (fun k => ?_) hroomrest (fun y hy => hwf y (List.mem_cons_of_mem _ hy))
+    refine ih _ _ h3 (fun k => ?_) hroomrest htxrest (fun y hy => hwf y (List.mem_cons_of_mem _ hy))
       (fun y hy => hdel y (List.mem_cons_of_mem _ hy)) (fun y hy => ht y (List.mem_cons_of_mem _ hy)) u1 u2
     by_cases hk : k = p.hdr.ssrc
     · rw [hk]; exact h4
@@ -845,7 +900,7 @@ example : allDelivered toySuite s0 s0 warmup = true := by
     simp only [warmup, List.mem_append, List.mem_map, List.mem_range, List.mem_cons, List.not_mem_nil, or_false] at hy
     rcases hy with ⟨k, _, rfl⟩ | rfl | rfl | rfl | rfl <;> exact ⟨rfl, rfl⟩
   exact many_ssrc_roundtrip_partial toySuite 0 warmup s0 s0 linked0 (fun _ => rfl)
-    (room_of_count toySuite warmup s0 s0 (by decide))
+    (room_of_count toySuite warmup s0 s0 (by decide)) (txroom_of_count toySuite warmup s0 (by decide))
     (fun x hx => wf_of_mem warmup_shape hx) (fun x hx => (hsh x hx).2)
     (fun x hx => by rw [(hsh x hx).1]; exact ⟨Nat.le_refl _, by decide⟩)
     (fun _ h => by simp [s0, Sess.new] at h) (fun _ h => by simp [s0, Sess.new] at h)
